@@ -228,7 +228,7 @@ def check(prop, tier, seed):
             crash.append('zero obligations generated')
     # ---------------- bounded stand-in
     rac = None
-    if meta.get('rac'):
+    if meta.get('rac') and not os.environ.get('PYVC_NO_RAC'):
         rac = run_rac(prop, tier, seed, timeout=meta.get('rac_timeout', {}).get(tier, 420 if tier == 'quick' else 5400))
         if rac['status'] != 'ok':
             crash.append('bounded runner %s: %s' % (rac['status'], rac.get('detail', '')[-2000:]))
@@ -242,6 +242,14 @@ def check(prop, tier, seed):
                 path = write_replay(prop, key, dict(property=prop, obligation='bounded:' + key, call=v.get('call'), detail=v.get('what'),
                                                     solver_output='run-time contract check (bounded)'))
                 violations.append((key, path, '', v.get('what', '')))
+    # ---------------- sensitivity self-test (thorough tier, unchanged tree only): canned mutations must each fail a named obligation
+    sensitivity = None
+    if tier == 'thorough' and not os.environ.get('PYG_REPO') and not os.environ.get('PYVC_NO_SELFTEST') and ded.get('present'):
+        try:
+            from tools.mutants import selftest
+            sensitivity = selftest(prop, jobs=4)
+        except Exception as e:      # noqa
+            sensitivity = dict(error=repr(e)[:300])
     # ---------------- verdict
     wall = time.time() - t_start
     seen = set()
@@ -275,6 +283,8 @@ def check(prop, tier, seed):
         undecided=undecided,
         samples=[e['name'] for e in obligations_ev[:5]],
     )
+    if sensitivity is not None:
+        coverage['sensitivity_selftest'] = sensitivity
     if rac and rac.get('status') == 'ok':
         coverage['bounded'] = {k: rac.get(k) for k in ('evaluations', 'distinct_nontrivial', 'rule', 'samples', 'exhaustive', 'scope', 'wall_s') if k in rac}
         coverage['evaluations'] = rac.get('evaluations', 0)
